@@ -95,6 +95,11 @@ CHECKS = {
    text="Exhaustive: 3 properties x all 128 subsets of the 7 sources x 2 rule orders on one element; 4^3 x 2^3 chains of depth 3 x 5 ancestor transforms (incl. rotation, negative determinant); use of a styled definition (own > use > ancestor); currentColor x where color comes from x caller colour; fill-/stroke-opacity by attribute / inline / inheritance. Fill and stroke are compared as RGBA (alpha from the opacity), stroke_width as the declared width and the effective width sw * sqrt|det CTM|.",
    note="Trusted: TLC, DocPaint.tla, style-sheet text generation. vector-effect, descendant/attribute selectors, !important are not modelled. A transform that cannot be reified stays on the shape with the unscaled width: the effective width is what is compared then.",
    design="5/C14"),
+ "C10": dict(
+   technique="TLA+ DocFault over DocCore (expected = rendering of the document with the faulty elements removed; invariant RemovedIsBalanced) enumerated by TLC over documents x fault placements; each faulty document parsed in the default error mode and the shapes outside the faulty elements compared",
+   text="Every document of <= 3 distinct id-carrying elements below the root (g, nested svg, defs, rect, circle, path, polyline, image, use of group/shape) x every applicable fault on every element including the root: unclosed / unknown / under-supplied / unit-bearing transform functions, bad colours, garbage style text, garbage and negative lengths, truncated / short-arc / move-less / garbage path data, odd and garbage point lists, garbage and short viewBox, garbage preserveAspectRatio, bad image data, dangling, self and ancestor use references (two simultaneous faults in the thorough tier). SVG.parse must return within the time limit without any exception, and every shape outside the faulty elements' subtrees must be exactly what the fault-free remainder renders (ids, order, geometry).",
+   note="Trusted: TLC, DocFault/DocCore.tla, the fault text table, XML serialisation. Faults in style-sheet text and ill-formed XML are excluded by the property. Shapes defined inside a faulty container but rendered through a use outside it are left open.",
+   design="5/C10"),
 }
 NOT_BUILT = "check not built yet (planned: DESIGN.md section 5)"
 
